@@ -1,20 +1,10 @@
-(* Wal/Proofs.v — top of the C05 proof development (imports the parts). *)
-From ZV Require Import Common.Bytes Wal.Consts Wal.Crc Wal.Proto Wal.Model.
-From Coq Require Import ZifyN ZifyNat ZifyBool Lia.
-Open Scope N_scope.
-
-Lemma btake_firstn : forall bs n, btake n bs = firstn (N.to_nat n) bs.
-Proof.
-  induction bs as [|b r IH]; intros n; cbn [btake].
-  - now rewrite firstn_nil.
-  - destruct (N.eqb_spec n 0) as [->|Hn]; [reflexivity|].
-    rewrite IH. replace (N.to_nat n) with (S (N.to_nat (N.pred n))) by lia. reflexivity.
-Qed.
-
-Lemma bdrop_skipn : forall bs n, bdrop n bs = skipn (N.to_nat n) bs.
-Proof.
-  induction bs as [|b r IH]; intros n; cbn [bdrop].
-  - now rewrite skipn_nil.
-  - destruct (N.eqb_spec n 0) as [->|Hn]; [reflexivity|].
-    rewrite IH. replace (N.to_nat n) with (S (N.to_nat (N.pred n))) by lia. reflexivity.
-Qed.
+(* Wal/Proofs.v — top of the C05 proof development: re-exports the parts.
+     ProofsCrc     CRC-32C: table = bitwise spec; injectivity; single byte / single bit
+     ProofsProto   varint and protobuf message round trips
+     ProofsFrame   8-byte frame header
+     ProofsDecode  decoding an encoded frame / stream; prefix stability; fuel
+     ProofsTorn    the decoder at a torn frame
+     ProofsPrefix  the prefix theorem for truncated images
+     ProofsLog     ReadAll's entry placement *)
+From ZV Require Export Wal.ProofsCrc Wal.ProofsProto Wal.ProofsFrame Wal.ProofsDecode Wal.ProofsTorn
+  Wal.ProofsPrefix Wal.ProofsLog.
